@@ -21,6 +21,7 @@ import (
 	"fmt"
 	"net/http"
 	"net/http/httptest"
+	"path/filepath"
 	"runtime"
 	"strings"
 	"time"
@@ -125,6 +126,12 @@ func mkConfig(c cfgT) *config.Config {
 			cfg.Tokens[tn].RateLimit, cfg.Tokens[tn].RateBurst = 1.0/3600, 1
 		}
 		cfg.Keys[fmt.Sprintf("k%d", i)] = &config.KeyConfig{Token: tn, Roles: []string{"r"}}
+		if c.Lookups {
+			// a key that can really be looked up (the lookup must succeed to leave anything in the cache)
+			kc := cfg.Keys[fmt.Sprintf("k%d", i)]
+			kc.KeyFile = filepath.Join(relicx.KeyDir, "rsaA.key")
+			kc.X509Certificate = filepath.Join(relicx.KeyDir, "rsaA.chain.crt")
+		}
 	}
 	if c.RateLimited || c.Lookups {
 		d := sha256.Sum256(relicx.ClientCert().RawSubjectPublicKeyInfo)
